@@ -4,6 +4,7 @@ import (
 	"bytes"
 	"crypto/cipher"
 	"fmt"
+	"strings"
 
 	"github.com/tjfoc/gmsm/sm4"
 )
@@ -16,6 +17,8 @@ func init() {
 	evals["ghash"] = evalGhash
 	evals["gfmulb"] = evalGfmul // same Go result, compared with the byte-level Lean model
 	evals["ghashb"] = evalGhash
+	evals["gcmencb"] = evalGcmenc // compared with the byte-level model of GCMEncrypt / GCMDecrypt (Model.GCMTop)
+	evals["gcmdecb"] = evalGcmdec
 	gens["C12"] = genC12
 }
 
@@ -230,7 +233,18 @@ func (r *rng) gcmIV() []byte {
 	return iv
 }
 
-func genC12(r *rng, tier string, emit func(string)) {
+func genC12(r *rng, tier string, emit0 func(string)) {
+	// every gcmenc / gcmdec line is also evaluated by the byte-level model (up to 8 KB: the list model is quadratic)
+	emit := func(line string) {
+		emit0(line)
+		if len(line) < 17000 {
+			if strings.HasPrefix(line, "gcmenc ") {
+				emit0("gcmencb " + line[7:])
+			} else if strings.HasPrefix(line, "gcmdec ") {
+				emit0("gcmdecb " + line[7:])
+			}
+		}
+	}
 	maxL, n := 40, 600
 	if tier == "thorough" {
 		maxL, n = 80, 6000
